@@ -48,7 +48,7 @@ type node struct {
 	// properly processed tree (FixChoice has inserted every implied case); where a case entry is
 	// missing the schema path has one name more than the tree has steps.
 	schema []string
-	viaRP bool     // some step is a Dir child of an rpc/action entry (limit L2)
+	viaRP  bool // some step is a Dir child of an rpc/action entry (limit L2)
 }
 
 type tree struct {
@@ -629,26 +629,11 @@ func hook(c rescorr.Case, ms *yang.Modules, errs []error, out *rescorr.GoOut) {
 	// ---- run
 	n0, e0 := counts(w)
 	var lastNew *yang.Entry
-	for qi, q := range qs {
-		if qi == nReadOnly {
-			// end of the read-only phase: same objects at the same places, same dump
-			w2 := buildWorld(ms)
-			if len(w2.nodes) != len(w.nodes) {
-				add(fmt.Sprintf("lookups of existing and absent paths changed the number of nodes: %d -> %d", len(w.nodes), len(w2.nodes)))
-			}
-			for e, i := range w.idx {
-				j, ok := w2.idx[e]
-				if !ok || encSteps(w2.nodes[j].steps) != encSteps(w.nodes[i].steps) || w2.nodes[j].tree != w.nodes[i].tree {
-					add("an entry moved or vanished during read-only lookups: " + w.trees[w.nodes[i].tree].ref + "/" + encSteps(w.nodes[i].steps))
-					break
-				}
-			}
-			if d := rescorr.Diff(dumpBefore, lib.DumpOutcome(ms, nil)); d != "" {
-				add("dump changed during read-only lookups: " + d)
-			}
-		}
+	var resOf []*yang.Entry // the result of every lookup so far, in order
+	exec := func(q query) {
 		st := w.nodes[q.start]
 		res := st.e.Find(q.path)
+		resOf = append(resOf, res)
 		n1, e1 := counts(w)
 		ans := "none"
 		if res != nil {
@@ -715,9 +700,68 @@ func hook(c rescorr.Case, ms *yang.Modules, errs []error, out *rescorr.GoOut) {
 		out.Extra["a"] = append(out.Extra["a"], fmt.Sprintf("%s:%d:%d", ans, dn, de))
 		out.Extra["want"] = append(out.Extra["want"], want)
 		out.Extra["kind"] = append(out.Extra["kind"], q.kind+" "+limit)
-		if q.kind != "create" && q.kind != "unknown-prefix" && q.kind != "name-as-prefix" && (dn != 0 || de != 0) {
+		if bk := strings.TrimPrefix(q.kind, "refused:"); bk != "create" && bk != "unknown-prefix" && bk != "name-as-prefix" && (dn != 0 || de != 0) {
 			add(fmt.Sprintf("Find(%q) from %s changed the trees: %+d nodes, %+d errors", q.path, readableLoc(w.trees[st.tree].ref+"/"+encSteps(st.steps)+"/"+lib.HexS(st.e.Path())), dn, de))
 		}
+	}
+	for qi, q := range qs {
+		if qi == nReadOnly {
+			// end of the read-only phase: same objects at the same places, same dump
+			w2 := buildWorld(ms)
+			if len(w2.nodes) != len(w.nodes) {
+				add(fmt.Sprintf("lookups of existing and absent paths changed the number of nodes: %d -> %d", len(w.nodes), len(w2.nodes)))
+			}
+			for e, i := range w.idx {
+				j, ok := w2.idx[e]
+				if !ok || encSteps(w2.nodes[j].steps) != encSteps(w.nodes[i].steps) || w2.nodes[j].tree != w.nodes[i].tree {
+					add("an entry moved or vanished during read-only lookups: " + w.trees[w.nodes[i].tree].ref + "/" + encSteps(w.nodes[i].steps))
+					break
+				}
+			}
+			if d := rescorr.Diff(dumpBefore, lib.DumpOutcome(ms, nil)); d != "" {
+				add("dump changed during read-only lookups: " + d)
+			}
+		}
+		exec(q)
+	}
+	// ---- phase 4: lookups after a refused load. Modules.Parse promises that a text it rejects
+	// leaves no trace; seen through Find: the processed trees must answer every kind of lookup
+	// (through an import prefix, own prefix, without prefix, relative, from grafted nodes,
+	// corrupted ones) exactly as before — no second Process in between. The model's registry does
+	// not change on a refused load, so the re-asked lookups simply continue the model's list.
+	nBefore := len(qs)
+	reask := func(label string) {
+		k := 140
+		if nBefore < k {
+			k = nBefore
+		}
+		for c := 0; c < k; c++ {
+			i := r.Intn(nBefore)
+			if k == nBefore {
+				i = c
+			}
+			q := qs[i]
+			if strings.HasPrefix(q.expect, "new") || q.expect == "same" {
+				j, ok := w.idx[resOf[i]]
+				if resOf[i] == nil || !ok {
+					continue
+				}
+				q.expect = "t" + strconv.Itoa(j) // the node created then is an ordinary node now
+			}
+			q.kind = "refused:" + q.kind
+			exec(q)
+		}
+		_ = label
+	}
+	for ri, rt := range refusedTexts(ms, r) {
+		err := ms.Parse(rt.text, fmt.Sprintf("refused%d.yang", ri))
+		if err == nil {
+			// not a violation of C17: the offer was not refused after all; stop, the set has changed
+			out.Extra["refused_accepted"] = append(out.Extra["refused_accepted"], rt.what)
+			break
+		}
+		out.Extra["refused"] = append(out.Extra["refused"], rt.what)
+		reask(rt.what)
 	}
 	late := 0
 	for _, n := range w.nodes {
@@ -733,6 +777,78 @@ func hook(c rescorr.Case, ms *yang.Modules, errs []error, out *rescorr.GoOut) {
 		}
 	}
 	out.Extra["n"] = []string{strconv.Itoa(N), strconv.Itoa(nReadOnly), strconv.Itoa(late), strconv.Itoa(foreignCases)}
+}
+
+type refusedText struct{ what, text string }
+
+// refusedTexts builds texts that Modules.Parse must reject, from what is loaded:
+//   - a bundle whose first module is a newer revision of a loaded module (preferably one that others
+//     import: add re-points the bare name to it) and whose second module is a duplicate — the text is
+//     rejected at its second module, after the first has been filed;
+//   - a bundle of a brand-new module followed by a duplicate;
+//   - a single duplicate; a text with a syntax error; a module with an unknown statement.
+func refusedTexts(ms *yang.Modules, r *rand.Rand) []refusedText {
+	mods := distinct(ms.Modules)
+	if len(mods) == 0 {
+		return nil
+	}
+	header := func(m *yang.Module, rev, body string) string {
+		ns, pfx := "urn:zz", "zz"
+		if m.Namespace != nil {
+			ns = m.Namespace.Name
+		}
+		if m.Prefix != nil {
+			pfx = m.Prefix.Name
+		}
+		t := fmt.Sprintf("module %s {\n  namespace %q;\n  prefix %s;\n", m.Name, ns, pfx)
+		if rev != "" {
+			t += "  revision " + rev + ";\n"
+		}
+		return t + body + "}\n"
+	}
+	dup := func(m *yang.Module) string { return header(m, m.Current(), "") }
+	imported := map[string]bool{}
+	for _, m := range append(mods, distinct(ms.SubModules)...) {
+		for _, i := range m.Import {
+			imported[i.Name] = true
+		}
+	}
+	var pref, rest []*yang.Module
+	for _, m := range mods {
+		if imported[m.Name] {
+			pref = append(pref, m)
+		} else {
+			rest = append(rest, m)
+		}
+	}
+	r.Shuffle(len(pref), func(i, j int) { pref[i], pref[j] = pref[j], pref[i] })
+	order := append(pref, rest...)
+	var out []refusedText
+	other := "  container zzother { leaf zzz { type string; } }\n"
+	for k, m := range order {
+		if k >= 2 {
+			break
+		}
+		newer := header(m, "2999-01-01", other)
+		second := newer // rejected as a duplicate of the module just filed
+		what := "bundle[newer revision of " + m.Name + ", the same again]"
+		for _, d := range mods {
+			if d != m && r.Intn(2) == 0 {
+				second = dup(d)
+				what = "bundle[newer revision of " + m.Name + ", duplicate of " + d.Name + "]"
+				break
+			}
+		}
+		out = append(out, refusedText{what, newer + second})
+	}
+	d := mods[r.Intn(len(mods))]
+	out = append(out, refusedText{"bundle[new module zznew, duplicate of " + d.Name + "]",
+		"module zznew {\n  namespace \"urn:zznew\";\n  prefix zznew;\n  container zzc { leaf zzl { type string; } }\n}\n" + dup(d)})
+	out = append(out, refusedText{"duplicate of " + d.Name, dup(d)})
+	out = append(out, refusedText{"syntax error", "module zzbad {\n  namespace \"urn:zzbad\";\n  prefix zzbad;\n  leaf x {\n"})
+	out = append(out, refusedText{"bundle[newer revision of " + order[0].Name + ", module with an unknown statement]",
+		header(order[0], "2999-06-01", other) + "module zzbad2 {\n  namespace \"urn:zzbad2\";\n  prefix zzbad2;\n  nosuchstatement x;\n}\n"})
+	return out
 }
 
 // wrappedBy returns the node an implied case wraps (nil when e is not an implied case): FixChoice
@@ -882,8 +998,8 @@ func runCases(cases []rescorr.Case, f *lib.Flags) []worked {
 
 type tally struct {
 	sets, noTrees, outside, nonWF, queries, absQ, relQ, badQ, createQ, nodes, wfSets int64
-	kinds                                                                          map[string]int64
-	triples                                                                        *lib.Distinct
+	kinds                                                                            map[string]int64
+	triples                                                                          *lib.Distinct
 }
 
 // judge compares one worked case; it reports disagreements through res.
@@ -932,6 +1048,8 @@ func judge(w worked, res *lib.Result, t *tally, verbose bool) (bad bool) {
 	for _, x := range w.g.Findings {
 		report(lib.Disagreement{Kind: "spec", Go: x, SpecVerdict: "violates", What: "Go-side oracle: " + x})
 	}
+	t.kinds["refused-loads-offered"] += int64(len(w.g.Extra["refused"]))
+	t.kinds["offers-accepted-instead(phase stopped)"] += int64(len(w.g.Extra["refused_accepted"]))
 	if n := w.g.Extra["n"]; len(n) == 4 {
 		if l, _ := strconv.Atoi(n[3]); l > 0 {
 			t.kinds["sets-with-implied-cases-of-foreign-grafts"]++
@@ -1104,6 +1222,9 @@ func main() {
 			if i%8 == 2 || i%8 == 5 || i%8 == 4 {
 				addChoiceGrafts(r, set)
 			}
+			if i%8 == 1 || i%8 == 6 {
+				addIONamed(r, set)
+			}
 			if i%4 == 1 {
 				addLateAugments(r, set)
 			}
@@ -1123,7 +1244,7 @@ func main() {
 	}
 	res.Evaluations = t.queries
 	res.DistinctNontrivial = t.triples.Len()
-	res.Rule = "hand-written corpus (the Lean example forest, submodules, grouping copies from other modules, implicit cases, absent rpc/action input and output, the documented-limit witnesses D17-L1, the rejected augment into an rpc node) + seeded grammar-directed module sets (harness/gen; 3/4 without deliberate faults; 3/8 with prefixes re-assigned so that import prefixes and own prefixes collide with module names (name of another import before or after it, own module name, mutual) and shuffled import order; 3/8 with bare nodes grafted by importing modules directly into foreign choices (their implied cases are start nodes whose prefix context is the augmenting module); 1/4 with added late augments: target through or at the implied case of a shorthand choice member, body with shorthand choice members, written in the owning module, a submodule or an importing module); per error-free set all (start, target) pairs of nodes of all module and submodule trees up to 40 nodes (sampled beyond) x absolute path under every prefix the start's context module binds to the target's module (3 spellings) and relative path, + one-corrupted-step paths (unknown name, empty step, bogus below rpc, step below a leaf, `..` above the root, unbound prefix, an imported module's name used as prefix, a step inserted before or put in place of any step with names from the structural pool (module names and prefixes, input/output, grouping/typedef/identity names), Entry.Path() used as a lookup, and every name of a deeper descendant used as a direct step, absolute and relative), + creation of absent rpc inputs/outputs; evaluations = Find calls compared with the model; distinct_nontrivial = distinct (set, start, target) triples looked up with a path of at least 2 steps"
+	res.Rule = "hand-written corpus (the Lean example forest, submodules, grouping copies from other modules, implicit cases, absent rpc/action input and output, the documented-limit witnesses D17-L1, the rejected augment into an rpc node) + seeded grammar-directed module sets (harness/gen; 3/4 without deliberate faults; 3/8 with prefixes re-assigned so that import prefixes and own prefixes collide with module names (name of another import before or after it, own module name, mutual) and shuffled import order; 3/8 with bare nodes grafted by importing modules directly into foreign choices (their implied cases are start nodes whose prefix context is the augmenting module); 1/4 with added late augments: target through or at the implied case of a shorthand choice member, body with shorthand choice members, written in the owning module, a submodule or an importing module); per error-free set all (start, target) pairs of nodes of all module and submodule trees up to 40 nodes (sampled beyond) x absolute path under every prefix the start's context module binds to the target's module (3 spellings) and relative path, + one-corrupted-step paths (unknown name, empty step, bogus below rpc, step below a leaf, `..` above the root, unbound prefix, an imported module's name used as prefix, a step inserted before or put in place of any step with names from the structural pool (module names and prefixes, input/output, grouping/typedef/identity names), Entry.Path() used as a lookup, and every name of a deeper descendant used as a direct step, absolute and relative), + creation of absent rpc inputs/outputs + the same lookups (sampled, every kind) re-asked after each of up to six refused loads (bundle [newer revision of a loaded module, duplicate], [new module, duplicate], single duplicate, syntax error, unknown statement) on the same processed trees; evaluations = Find calls compared with the model; distinct_nontrivial = distinct (set, start, target) triples looked up with a path of at least 2 steps"
 	res.Distribution["sets_compared"] = t.sets
 	res.Distribution["sets_without_trees(errors/parse)"] = t.noTrees
 	res.Distribution["outside_model"] = t.outside
